@@ -82,7 +82,8 @@ def run_case(case):
     for i, op in enumerate(case["ops"]):
         k = op[0]
         if k == "formula_error":
-            continue            # tracebacks are recorded either way; keep the default wrapper
+            mx.use_formula_error(bool(op[1]))       # tracebacks are recorded in both modes
+            continue
         if k in ("arm", "set_recursion"):
             real.apply(op)
             apply_ref(rm, op)
